@@ -310,23 +310,27 @@ class VizierServicer(vizier_service_pb2_grpc.VizierServiceServicer):
         )
       except custom_errors.NotFoundError:
         active_op_list = []
-      if active_op_list:
-        return active_op_list[0]  # We've found the active one!
-
       start_time = _get_current_time()
-      # Create a new Op if there aren't any active (not done) ops.
-      try:
-        old_op_number = self.datastore.max_suggestion_operation_number(
-            study_name, request.client_id
-        )
-      except custom_errors.NotFoundError:
-        old_op_number = 0
-      new_op_number = old_op_number + 1
-      new_op_name = resources.SuggestionOperationResource(
-          owner_id, study_id, request.client_id, new_op_number
-      ).name
-      output_op = operations_pb2.Operation(name=new_op_name, done=False)
-      self.datastore.create_suggestion_operation(output_op)
+      if active_op_list:
+        # Operations are computed entirely under this lock, so one that is
+        # still not done here was abandoned (the server died while computing
+        # it). Finish it now; returning it as-is would make this client poll
+        # it forever.
+        output_op = active_op_list[0]
+      else:
+        # Create a new Op if there aren't any active (not done) ops.
+        try:
+          old_op_number = self.datastore.max_suggestion_operation_number(
+              study_name, request.client_id
+          )
+        except custom_errors.NotFoundError:
+          old_op_number = 0
+        new_op_number = old_op_number + 1
+        new_op_name = resources.SuggestionOperationResource(
+            owner_id, study_id, request.client_id, new_op_number
+        ).name
+        output_op = operations_pb2.Operation(name=new_op_name, done=False)
+        self.datastore.create_suggestion_operation(output_op)
 
       # Check how many ACTIVE trials already exist for this client only.
       all_trials = self.datastore.list_trials(study_name)
@@ -741,15 +745,18 @@ class VizierServicer(vizier_service_pb2_grpc.VizierServiceServicer):
       else:
         if (
             output_operation.status
-            == vizier_oss_pb2.EarlyStoppingOperation.Status.ACTIVE
-            or datetime.datetime.utcnow()
+            != vizier_oss_pb2.EarlyStoppingOperation.Status.ACTIVE
+            and datetime.datetime.utcnow()
             - output_operation.completion_time.ToDatetime()
             < self._early_stop_recycle_period
         ):
-          # Operation is already active or very recent. Just return it.
+          # Operation is very recent. Just return it.
           return vizier_service_pb2.CheckTrialEarlyStoppingStateResponse(
               should_stop=output_operation.should_stop
           )
+        # Otherwise recompute. (An operation that is still ACTIVE here was
+        # abandoned by a server that died while computing it: operations are
+        # computed entirely under this lock.)
 
         # Recycle the operation to ACTIVE again and start Pythia for
         # recomputation.
